@@ -492,6 +492,11 @@ def flush_mutations(ctx, pending):
         elif s.get("holds") is not True:
             if not s.get("reported"):
                 tags = ["missed", "mut:" + inp["m"]["m"]]
+                if inp["m"]["m"] == "dropTableRefs":
+                    with_schema = {t["name"] for t in inp["a"]["tables"] if t.get("schema")}
+                    if inp["m"]["t"] in with_schema or any(t["name"] in with_schema for t in inp["a"]["tables"]
+                                                           for g in t["fks"] if g["reftable"] == inp["m"]["t"]):
+                        tags.append("fk-default-schema")
                 if inp["m"]["m"] in ("addFK", "dropFK"):
                     with_schema = {t["name"] for t in inp["a"]["tables"] if t.get("schema")}
                     fk = inp["m"].get("fk") or next((f for t in inp["a"]["tables"] if t["name"] == inp["m"]["t"] for f in t["fks"] if f["name"] == inp["m"].get("n")), None)
